@@ -545,3 +545,52 @@ def binding_hygiene_records(repo):
                         if par:
                             out['ties'].append((cls, s.variant, loc, sorted(par[0]), method_line(repo, cls)))
     return out
+
+
+def attribute_target_records(repo):
+    """Per binding construct: the attribute targets (`obj.attr` in Store context, also inside tuple / list / starred targets) that the
+    extractor records as attribute assignments with the module scope.  -> {(cls, generalised path): {'n', 'missing': [variants]}}"""
+    recs = {}
+    target_fields = {'Assign': ['targets'], 'AnnAssign': ['target'], 'For': ['target'], 'AsyncFor': ['target'],
+                     'With': ['items'], 'AsyncWith': ['items']}
+
+    def attr_targets(n):
+        if isinstance(n, list):
+            out = []
+            for x in n:
+                out.extend(attr_targets(x))
+            return out
+        if n is None or not hasattr(n, 'cls'):
+            return []
+        if n.cls == 'Attribute':
+            return [n]
+        if n.cls in ('Tuple', 'List'):
+            return attr_targets(n.fields['elts'])
+        if n.cls == 'Starred':
+            return attr_targets(n.fields['value'])
+        if n.cls == 'withitem':
+            return attr_targets(n.fields.get('optional_vars'))
+        return []
+    for cls, fields in target_fields.items():
+        for s in summaries(repo).get(cls, []):
+            if cls == 'AnnAssign' and s.root.fields.get('value') is None:
+                # a bare annotation assigns nothing: recording it makes `self.x: int` the definition of x
+                for ps in structural_paths(s):
+                    for n in attr_targets(s.root.fields.get('target')):
+                        rec = recs.setdefault((cls, gen(n.path) + ' (bare annotation)'), {'n': 0, 'missing': [], 'spurious': [],
+                                                                                          'line': method_line(repo, cls)})
+                        rec['n'] += 1
+                        if n.path in ps.top_state.get('attr_targets', ()):
+                            rec['spurious'].append(s.variant)
+                continue
+            tg = []
+            for f in fields:
+                tg.extend(attr_targets(s.root.fields.get(f)))
+            for ps in structural_paths(s):
+                for n in tg:
+                    key = (cls, gen(n.path))
+                    rec = recs.setdefault(key, {'n': 0, 'missing': [], 'line': method_line(repo, cls)})
+                    rec['n'] += 1
+                    if n.path not in ps.top_state.get('attr_targets', ()):
+                        rec['missing'].append(s.variant)
+    return recs
